@@ -77,6 +77,26 @@ theorem po_applyRequest (h : m.w.PI) (t : Transition) (i : Nat) :
   cases t.kind <;> simp only [] <;> (repeat' split) <;>
     simp (disch := assumption) only [Node.request_po, Node.fwdActive_po, po_fail', *]
 
+theorem po_applyRequestNoPin (h : m.w.PI) (t : Transition) :
+    (m.po c e H S).applyRequestNoPin t = (m.applyRequestNoPin t).po c e H S := by
+  have hs : (m.w.snapshot m.root true false).PI := h.snapshot ..
+  simp only [Mach.applyRequestNoPin, po_w, po_root, po_snapshot]
+  cases t.kind <;> simp only [] <;> (repeat' split) <;>
+    simp (disch := assumption) only [Node.request_po, Node.fwdActive_po, po_fail', *]
+
+theorem po_applyStep (h : m.w.PI) (x : Transition × Nat) :
+    Mach.applyStep (m.po c e H S) x = (Mach.applyStep m x).po c e H S := by
+  unfold Mach.applyStep
+  rw [show (m.po c e H S).w.cfg.historyCap = m.w.cfg.historyCap from rfl]
+  split
+  · exact po_applyRequest c e H S h x.1 x.2
+  · exact po_applyRequestNoPin c e H S h x.1
+
+theorem applyStep_PI (m : Mach U) (x : Transition × Nat) (h : m.w.PI) : (Mach.applyStep m x).w.PI := by
+  unfold Mach.applyStep; split
+  · exact applyRequest_PI m x.1 x.2 h
+  · exact applyRequestNoPin_PI m x.1 h
+
 theorem po_applyAll : (ts : List Transition) → (m : Mach U) → (i : Nat) → m.w.PI →
     (m.po c e H S).applyAll ts i = (m.applyAll ts i).po c e H S
   | [], m, i, _ => rfl
@@ -340,16 +360,15 @@ theorem po_loadEnter (h : m.w.PI) (st : List Bool) : (m.po c e H S).loadEnter st
 /-! ### `replayTransitions`, `replayEnter` -/
 
 theorem po_foldl_apply : (l : List (Transition × Nat)) → (m : Mach U) → m.w.PI →
-    l.foldl (fun (m : Mach U) (x : Transition × Nat) => m.applyRequest x.1 x.2) (m.po c e H S) =
-      (l.foldl (fun (m : Mach U) (x : Transition × Nat) => m.applyRequest x.1 x.2) m).po c e H S
+    l.foldl Mach.applyStep (m.po c e H S) = (l.foldl Mach.applyStep m).po c e H S
   | [], m, _ => rfl
   | x :: rest, m, h => by
-      simp only [List.foldl_cons, po_applyRequest c e H S h]
-      exact po_foldl_apply rest _ (applyRequest_PI m x.1 x.2 h)
+      simp only [List.foldl_cons, po_applyStep c e H S h]
+      exact po_foldl_apply rest _ (applyStep_PI m x h)
 
 theorem po_applyRequests (h : m.w.PI) (ts : List Transition) :
     (m.po c e H S).applyRequests ts = ((m.applyRequests ts).1.po c e H S, (m.applyRequests ts).2) := by
-  rw [applyRequests_staged, applyRequests_staged]
+  rw [Mach.applyRequests_eq, Mach.applyRequests_eq]
   rw [show ({ m.po c e H S with w := (m.po c e H S).w.freshControl } : Mach U) =
       Mach.po c e H S { m with w := m.w.freshControl } from rfl,
     po_foldl_apply c e H S _ _ (show ({ m with w := m.w.freshControl } : Mach U).w.PI from h.freshControl)]
@@ -376,6 +395,7 @@ theorem po_replayTransitions (h : m.w.PI) (ts : List Transition) :
   · rfl
   · split
     · simp only [po_replayCommit c e H S (applyRequests_PI _ ts hn)]
+      rfl
     · rfl
 
 theorem po_replayEnterCommit (h : m.w.PI) (ts : List Transition) :
@@ -411,6 +431,7 @@ theorem po_replayEnter (h : m.w.PI) (ts : List Transition) :
     rw [po_clearTargets]
   · split
     · simp only [po_replayEnterCommit c e H S (applyRequests_PI _ ts (replayEnterHead_PI h))]
+      rfl
     · rfl
 
 
